@@ -88,6 +88,24 @@ func (c *c06) load(dir string) bool {
 					c.funcs[o] = fd
 				}
 			}
+			// package-level `var f = func(…) {…}` (randIntn): a function of the call graph like any other
+			if gd, ok := d.(*ast.GenDecl); ok && gd.Tok == token.VAR {
+				for _, sp := range gd.Specs {
+					vs, ok := sp.(*ast.ValueSpec)
+					if !ok {
+						continue
+					}
+					for i, n := range vs.Names {
+						if i < len(vs.Values) {
+							if lit, ok := vs.Values[i].(*ast.FuncLit); ok {
+								if o := c.info.Defs[n]; o != nil {
+									c.funcs[o] = &ast.FuncDecl{Name: n, Type: lit.Type, Body: lit.Body}
+								}
+							}
+						}
+					}
+				}
+			}
 		}
 	}
 	return c.pkg != nil
@@ -629,6 +647,101 @@ func init() {
 				acc = append(acc, "atomic.AddUint64 Route.total")
 			}
 			x.defStrList("rrAccesses", acc)
+		}
+
+		// ---- rndPicker / randIntn: which generator ----
+		// (a) package-level variables of route/ that hold a generator of their own (*rand.Rand, rand.Source): a
+		//     value of these types is NOT safe for concurrent use, unlike math/rand's top-level functions
+		var randVars []string
+		for _, f := range x.files("route") {
+			for _, d := range f.Decls {
+				gd, ok := d.(*ast.GenDecl)
+				if !ok || gd.Tok != token.VAR {
+					continue
+				}
+				for _, sp := range gd.Specs {
+					vs, ok := sp.(*ast.ValueSpec)
+					if !ok {
+						continue
+					}
+					own := false
+					if vs.Type != nil {
+						t := x.src(vs.Type)
+						own = strings.Contains(t, "rand.Rand") || strings.Contains(t, "rand.Source")
+					}
+					for _, v := range vs.Values {
+						if _, isFn := v.(*ast.FuncLit); isFn {
+							continue
+						}
+						ast.Inspect(v, func(n ast.Node) bool {
+							if call, ok := n.(*ast.CallExpr); ok {
+								if fn := x.src(call.Fun); fn == "rand.New" || strings.HasPrefix(fn, "rand.NewSource") || fn == "rand.NewPCG" || fn == "rand.NewChaCha8" || fn == "rand.NewZipf" {
+									own = true
+								}
+							}
+							return true
+						})
+					}
+					if own {
+						for _, n := range vs.Names {
+							randVars = append(randVars, n.Name)
+						}
+					}
+				}
+			}
+		}
+		sort.Strings(randVars)
+		x.defStrList("routeOwnGenerators", randVars)
+		// what the identifier `rand` denotes in the package
+		randImports := map[string]bool{}
+		for _, f := range x.files("route") {
+			for _, im := range f.Imports {
+				path := strings.Trim(im.Path.Value, `"`)
+				name := path[strings.LastIndex(path, "/")+1:]
+				if name == "v2" {
+					name = "rand"
+				}
+				if im.Name != nil {
+					name = im.Name.Name
+				}
+				if name == "rand" {
+					randImports[path] = true
+				}
+			}
+		}
+		var ri []string
+		for p := range randImports {
+			ri = append(ri, p)
+		}
+		sort.Strings(ri)
+		x.defStrList("routeRandImports", ri)
+		// (b) every call made by randIntn and rndPicker, by callee text; (c) the callee that yields the random number
+		for _, fn := range []string{"randIntn", "rndPicker"} {
+			var fd *ast.FuncDecl
+			for o, d := range c.funcs {
+				if o.Name() == fn && o.Parent() == c.pkg.Scope() {
+					fd = d
+				}
+			}
+			if fd == nil {
+				x.fail("route: %s not found", fn)
+				continue
+			}
+			var calls []string
+			seenCall := map[string]bool{}
+			ast.Inspect(fd.Body, func(n ast.Node) bool {
+				if call, ok := n.(*ast.CallExpr); ok {
+					if _, isLit := call.Fun.(*ast.FuncLit); !isLit {
+						if t := x.src(call.Fun); !seenCall[t] {
+							seenCall[t] = true
+							calls = append(calls, t)
+						}
+					}
+				}
+				return true
+			})
+			sort.Strings(calls)
+			x.defStrList(fn+"Calls", calls)
 		}
 
 		// ---- GlobCache ----
